@@ -1,6 +1,6 @@
 (* C01: generated serializers emit exactly the DSDL wire representation.
    Statements only; proofs in Spec/WireThm*.v (specification level) and Codec/Refine.v, Codec/RefineSer*.v (code-shaped walker). *)
-From Verif Require Import Wire WireThm WireThmRt WireThmValid Walker Refine RefineSerBits RefineSerBase RefineSer Gen_C01 GenC01Thm.
+From Verif Require Import Wire WireThm WireThmRt WireThmValid Walker Refine RefineSerBits PrimsOn RefineSerBase RefineSer Gen_C01 GenC01Thm InstancesC InstancesCpp InstancesPy.
 Local Open Scope nat_scope.
 
 (* every encoding of every well-formed type lies within the exported bounds; composites are whole bytes *)
@@ -62,13 +62,71 @@ Print Assumptions c01_walker_ser_buffer_effect.
 Theorem c01_walker_ser_invariant : forall P L t, prims_ok P -> L mod 8 = 0 -> wf_ty t = true ->
   forall v buf off, storage_ok t v = true -> length buf = L -> off mod align t = 0 -> off + bmax t <= L ->
   ser_sim buf off (enc_body t v) (ws_body P t v buf off).
-Proof. intros P L t HP HL. exact (ser_all P HP L HL t). Qed.
+Proof. intros P L t HP HL. exact (ser_all P L HL (prims_ok_set_law P HP L) t). Qed.
 Print Assumptions c01_walker_ser_invariant.
 
 (* the storage proviso is necessary, and the statement left open by the first round (proviso True, any top-level type) is false *)
 Theorem c01_walker_ser_unrestricted_refuted : ~ walk_ser_refines_statement.
 Proof. exact walk_ser_refines_statement_refuted. Qed.
 Print Assumptions c01_walker_ser_unrestricted_refuted.
+
+(* THE SAME ABOUT THE SHIPPED PRIMITIVES (Codec/Instances*.v; composition with the C14 theorems).
+   - from the restricted store law (stores of at most 64 bits into the buffer of the up-front capacity check): *)
+Theorem c01_walker_ser_refines_from_store_law : forall P u fs ext v buf cap, set_law P (8 * cap) ->
+  wf_ty (TComp u fs ext) = true -> length buf = 8 * cap -> storage_ok (TComp u fs ext) v = true ->
+  walk_ser P (TComp u fs ext) v buf cap = ser_spec (TComp u fs ext) v cap.
+Proof. exact walk_ser_refines_on. Qed.
+Print Assumptions c01_walker_ser_refines_from_store_law.
+
+(* - C: nunavutSetUxx of serialization.h (both target_endianness renderings); side condition: the buffer is addressable in bits by a
+     size_t *)
+Theorem c01_c_walk_ser_refines : forall (little : bool) u fs ext v buf cap,
+  wf_ty (TComp u fs ext) = true -> length buf = 8 * cap -> (N.of_nat (8 * cap) < CPrims.two64)%N ->
+  storage_ok (TComp u fs ext) v = true ->
+  walk_ser (c_prims little) (TComp u fs ext) v buf cap = ser_spec (TComp u fs ext) v cap.
+Proof. exact c_walk_ser_refines. Qed.
+Print Assumptions c01_c_walk_ser_refines.
+
+Theorem c01_c_buffer_effect : forall (little : bool) u fs ext v buf cap bits,
+  wf_ty (TComp u fs ext) = true -> length buf = 8 * cap -> (N.of_nat (8 * cap) < CPrims.two64)%N ->
+  storage_ok (TComp u fs ext) v = true -> bmax (TComp u fs ext) <= 8 * cap -> enc_body (TComp u fs ext) v = Ok bits ->
+  ws_body (c_prims little) (TComp u fs ext) v buf 0 = Ok (bits ++ skipn (length bits) buf, length bits).
+Proof. exact c_ws_body_effect. Qed.
+Print Assumptions c01_c_buffer_effect.
+
+(* - C++: bitspan::setUxx, and (zv = true) bitspan::setZeros for all-zero bits such as padding and void fields *)
+Theorem c01_cpp_walk_ser_refines : forall (zv : bool) u fs ext v buf cap,
+  wf_ty (TComp u fs ext) = true -> length buf = 8 * cap -> (N.of_nat (8 * cap) < CPrims.two64)%N ->
+  storage_ok (TComp u fs ext) v = true ->
+  walk_ser (cpp_prims zv) (TComp u fs ext) v buf cap = ser_spec (TComp u fs ext) v cap.
+Proof. exact cpp_walk_ser_refines. Qed.
+Print Assumptions c01_cpp_walk_ser_refines.
+
+(* bitspan::padAndMoveToAlignment(8) is the walker's padding step (same bits, same new offset) *)
+Theorem c01_cpp_pad_is_walker_pad : forall buf off, c_dom buf -> off + pad8 off <= length buf ->
+  exists r, CppPrims.padAndMoveToAlignment (cpp_span buf (length (InstancesBase.bytes_of_bits buf)) off) 8 =
+              Some (inl (r, N.of_nat (off + pad8 off))) /\
+            bits_of_bytes r = firstn off buf ++ repeat false (pad8 off) ++ skipn (off + pad8 off) buf.
+Proof. exact cpp_pad_is_w_pad. Qed.
+Print Assumptions c01_cpp_pad_is_walker_pad.
+
+(* - Python: only the leaf law.  Serializer.add_(un)aligned_unsigned is the store law UNDER the Serializer's invariant (all zero
+     from the cursor on) and re-establishes it; the walker's C-shaped whole-byte store and header back-patch do not keep that
+     invariant, so the Python serialization templates are tied to the specification by correspondence only (see InstancesPy.v) *)
+Theorem c01_py_store_leaf : forall buf off v, length buf mod 8 = 0 -> 1 <= length v -> off + length v <= length buf ->
+  zero_from buf off ->
+  exists buf', set_bits py_prims buf off v = Some buf' /\
+               buf' = firstn off buf ++ v ++ skipn (off + length v) buf /\ zero_from buf' (off + length v).
+Proof. exact py_store_inv. Qed.
+Print Assumptions c01_py_store_leaf.
+
+Example c01_instances_run :
+  set_bits (c_prims false) (repeat true 24) 3 (bits_of_N 13 4096) =
+    Some (firstn 3 (repeat true 24) ++ bits_of_N 13 4096 ++ skipn 16 (repeat true 24)) /\
+  set_bits (cpp_prims true) (repeat true 24) 6 (repeat false 5) =
+    Some (firstn 6 (repeat true 24) ++ repeat false 5 ++ skipn 11 (repeat true 24)) /\
+  set_bits py_prims (repeat false 24) 3 (bits_of_N 13 4097) = Some (repeat false 3 ++ bits_of_N 13 4097 ++ repeat false 8).
+Proof. vm_compute. repeat split; reflexivity. Qed.
 
 (* TRANSLATOR TIE (Generated/Gen_C01.v is rewritten from /repo's Python source on every run; Codec/GenC01Thm.v): the helper
    functions the serialization templates call are what the walker assumes.  filter_bits2bytes_ceil is ceil(n/8) and agrees with
